@@ -21,6 +21,12 @@ pub fn vparse(s: &[u8]) -> VParse {
 }
 
 /// CRC-64-AVRO from the Avro specification (fingerprint64 / initFPTable), written independently of the crate
+/// CRC-32 (IEEE 802.3, reflected, polynomial 0xEDB88320) — bit by bit, independent of the crate's crc32fast
+pub fn crc32(data: &[u8]) -> u32 {
+    let mut c: u32 = 0xFFFF_FFFF;
+    for &b in data { c ^= b as u32; for _ in 0..8 { c = if c & 1 == 1 { (c >> 1) ^ 0xEDB8_8320 } else { c >> 1 }; } }
+    !c
+}
 pub fn crc64avro(data: &[u8]) -> u64 {
     const EMPTY: u64 = 0xc15d213aa4d7a795;
     let mut table = [0u64; 256];
